@@ -91,13 +91,37 @@ func (g *Gen) u64(label string) uint64 {
 
 var hostilePaths = []string{"", "/", "/x", "x/", "Wallet 1", "Wallet 1/", "Wallet 1/(", "Wallet 1/[", "Wallet 1/.*", "Wallet 1/Account 0/extra", "No Such Wallet/a", "Wallet 3/none", "Wallet 1/\x00", "Wallet 1/" + strings.Repeat("a", 5000), strings.Repeat("w", 70000) + "/a", "Wallet 1/(?i)account 1", "Wallet 1/Account [0-9]+$", "Wallet 3/new"}
 
+// pathAtoms are the pieces a composed hostile path is made of: regular-expression metacharacters on
+// their own and in fragments, separators, and ordinary text.
+var pathAtoms = []string{"^", "$", "(", ")", "[", "]", "*", "+", "?", "|", "\\", ".", "{", "}", "{1}", "{,}", "(?i)", "(?P<n>", "\\d", "\\D", "\\", "[^", "-", "/", " ", "\x00", "a", "Account", "Account 0", "0", "\u00e9"}
+
+var pathWallets = []string{"", "Wallet 1", "Wallet 1", "Wallet 3", "No Such Wallet", "^", ".*", "wallet 1"}
+
+// hostilePath draws from the fixed table or composes wallet "/" atoms.
+func (g *Gen) hostilePath(label string) string {
+	if g.S.Int(2, label+"_how") == 0 {
+		return hostilePaths[g.S.Int(len(hostilePaths), label+"_h")]
+	}
+	w := pathWallets[g.S.Int(len(pathWallets), label+"_w")]
+	n := g.S.Int(5, label+"_n")
+	var sb strings.Builder
+	for i := 0; i < n; i++ {
+		sb.WriteString(pathAtoms[g.S.Int(len(pathAtoms), label+"_a")])
+	}
+	if g.S.Int(8, label+"_noslash") == 0 {
+		return w + sb.String()
+	}
+
+	return w + "/" + sb.String()
+}
+
 func (g *Gen) account(label string) string {
 	if g.S.Int(10, label+"_kind") < 6 {
 		return g.Paths[g.S.Int(len(g.Paths), label)]
 	}
 	g.hostile++
 
-	return hostilePaths[g.S.Int(len(hostilePaths), label+"_h")]
+	return g.hostilePath(label)
 }
 
 func (g *Gen) pubKey(label string) []byte {
@@ -249,7 +273,7 @@ func (g *Gen) Build(method string) Req {
 				r.Paths = append(r.Paths, []string{"Wallet 1", "Wallet 3", "Wallet 1/Account .*", "Wallet 1/.*1"}[g.S.Int(4, "lpv")])
 			} else {
 				g.hostile++
-				r.Paths = append(r.Paths, hostilePaths[g.S.Int(len(hostilePaths), "lph")])
+				r.Paths = append(r.Paths, g.hostilePath("lph"))
 			}
 		}
 		m = r
